@@ -274,7 +274,8 @@ def between_comparer(comparer_params_eval, student_eval, utils):
     if not np.isreal(student_eval):
         raise InputTypeError("Input must be real.")
 
-    return start <= student_eval <= stop
+    # np.isreal tests the value, not the type: 5+0j passes but cannot be ordered
+    return start <= np.real(student_eval) <= stop
 
 def congruence_comparer(comparer_params_eval, student_eval, utils):
     """
